@@ -67,6 +67,7 @@ def run(res):
         for sh in range(16):
             jobs.append(("wsrecv_drv", [], env, dict(mode="table", ctxs=ctxs, b0_range=[sh * 16, sh * 16 + 16], shard=sh, bytes_every=16)))
     seq_ctx = [dict(c, pre=p) for c in contexts(True, 0) if c["pre"] == "open" for p in ("open", "closing")]
+    seq_ctx += [dict(c, autoping=True) for c in seq_ctx if c["pre"] == "open"]
     for fwn in fws:
         env = common.driver_env(fw=fwn, seed=res.seed)
         for sh in range(4 if thorough else 2):
